@@ -11,7 +11,7 @@ sys.path.insert(0, os.path.join(VERIF, "engine"))
 import build  # noqa
 
 # checks to run per seeded change: every property of the same executor group, plus cross-group checks that are known to matter
-EXTRA = {"C11": ["C15", "C01", "C02"], "C08": ["C15"], "C15": [], "C05": ["C10"], "C10": ["C05"], "C06": ["C13"], "C13": ["C06"]}
+EXTRA = {"C20": ["C15"], "C11": ["C15", "C01", "C02"], "C08": ["C15"], "C15": [], "C05": ["C10"], "C10": ["C05"], "C06": ["C13"], "C13": ["C06"]}
 
 
 def props_for(pid):
